@@ -529,7 +529,7 @@ static void body(const struct params *pa)
 
   /* C04 success branch */
   for (int i = 0; i < S->nevents; i++)
-    if (S->ev[i].api == start_api && S->ev[i].injected && (S->ev[i].call == C_FILENO || (S->ev[i].call == C_FCNTL && S->ev[i].side == 0))) sc.ex.parent_may_be_null = 1;
+    if (S->ev[i].api == start_api && S->ev[i].injected == EBADF && (S->ev[i].call == C_FILENO || (S->ev[i].call == C_FCNTL && S->ev[i].side == 0))) sc.ex.parent_may_be_null = 1; /* "not open" is the one answer that means: no such stream */
   {
     int pid = reproc_pid(p);
     struct vk_child *c = vk_nchildren ? &vk_children[vk_nchildren - 1] : NULL;
